@@ -2,7 +2,7 @@
 """Evaluate the checks against a patch WITHOUT occupying /repo or /verif: uses a scratch instance of the
 framework (rsync of /verif incl. its build caches) and a scratch worktree of /repo.
 
-usage: eval_patch.py <patch.diff> <label> [--checks C01,C02] [--instance N]
+usage: eval_patch.py <patch.diff> <label> [--checks C01,C02] [--instance N] [--tier quick|thorough]
 prints one JSON object: {label, checks: {Cxx: "silent" | "VIOLATION ... [kind] message"}}
 
 The scratch instance lives in /var/tmp/verif-eval<N> + /var/tmp/repo-eval<N>; `--sync` refreshes it from
@@ -59,7 +59,7 @@ def main():
     try:
         for pid in ids:
             t0 = time.time()
-            rc, o = sh(f"bin/check {pid} quick", cwd=vroot, env=env)
+            rc, o = sh(f"bin/check {pid} {opt('--tier', 'quick')}", cwd=vroot, env=env, timeout=6 * 3600)
             v = [l for l in o.split("\n") if l.startswith("VIOLATION")]
             if v:
                 rp = v[0].split("replay=")[1].split()[0]
